@@ -12,6 +12,11 @@ TRUSTED = ["model: theories/Bounds.v compute_sam (loop for loop, all r+1 rounds 
 ASSUMPTIONS = ["hidden game superadditive AND monotone non-increasing with v(empty)=0 (generator-checked exactly on the exact stream)"]
 
 
+def regen(ctx):
+    import registry_dump
+    registry_dump.regen_registry()
+
+
 def run(ctx, proof):
     rng = ctx.rng
     rs_quick = [0, 1, 2, 3, 10]
